@@ -66,6 +66,10 @@ Proof. exact fire_source_is_model. Qed.
 Theorem C17_timers_source_is_model : forall (timer : val) (h : N), gen_RxTxHeartbeat_new ext_model timer (VN h) = VR [("rx", VC "Heartbeat" [VC "HeartbeatKind::Rx" []; VN (c_max_missed_server_heartbeats * h)]); ("tx", VC "Heartbeat" [VC "HeartbeatKind::Tx" []; VN h])].
 Proof. exact timers_source_is_model. Qed.
 
+(* HeartbeatTimers::{start, fire_rx, fire_tx} as translated from the source on every run (Gen/SrcTimers.v): after start(h) the timer is the same, a receive-timer event is decided by the heartbeat started with 2 x h and a send-timer event by the one started with h - never the other one; before start there is nothing to fire (the expect panics). The translation is about WHICH heartbeat decides; what fire computes and how it updates the heartbeat is C17_fire_source_is_model *)
+Theorem C17_start_fire_source_is_model : forall (timer : val) (h : N), let s1 := fst (gen_HeartbeatTimers_start ext_model2 (timers0 timer) (VN h)) in v_field "timer" s1 = timer /\ snd (gen_HeartbeatTimers_fire_rx ext_model2 s1) = VC "fire" [VC "Heartbeat" [VC "HeartbeatKind::Rx" []; VN (c_max_missed_server_heartbeats * h)]; timer] /\ snd (gen_HeartbeatTimers_fire_tx ext_model2 s1) = VC "fire" [VC "Heartbeat" [VC "HeartbeatKind::Tx" []; VN h]; timer] /\ snd (gen_HeartbeatTimers_fire_rx ext_model2 (timers0 timer)) = VC "fire" [VStuck; timer].
+Proof. exact start_fire_source_is_model. Qed.
+
 (* non-vacuity: h = 1: a read at 900 ms, silence afterwards, timer events at 2000 and 2900 *)
 Example C17_example :
   match start_heartbeats 0 1 with
@@ -90,6 +94,7 @@ Check C17_missed_not_masked : forall (pre rest : list (hbkind * bool)) (c : core
 Check C17_pass_ok : forall (fired : list (hbkind * bool)) (c : core), (forall (k : hbkind) (b : bool), In (k, b) fired -> (k, b) <> (HbRx, true)) -> fst (heartbeat_timers fired c) = OOk.
 Check C17_fire_source_is_model : forall last interval deadline now : N, last <= now -> let h := {| h_last := last; h_interval := interval; h_deadline := deadline |} in gen_Heartbeat_fire interval (now - last) = RsOk "Heartbeat_fire" [("result", if fst (hb_fire now h) then 1 else 0); ("timer.set_timeout#0", h_deadline (snd (hb_fire now h)) - now)].
 Check C17_timers_source_is_model : forall (timer : val) (h : N), gen_RxTxHeartbeat_new ext_model timer (VN h) = VR [("rx", VC "Heartbeat" [VC "HeartbeatKind::Rx" []; VN (c_max_missed_server_heartbeats * h)]); ("tx", VC "Heartbeat" [VC "HeartbeatKind::Tx" []; VN h])].
+Check C17_start_fire_source_is_model : forall (timer : val) (h : N), let s1 := fst (gen_HeartbeatTimers_start ext_model2 (timers0 timer) (VN h)) in v_field "timer" s1 = timer /\ snd (gen_HeartbeatTimers_fire_rx ext_model2 s1) = VC "fire" [VC "Heartbeat" [VC "HeartbeatKind::Rx" []; VN (c_max_missed_server_heartbeats * h)]; timer] /\ snd (gen_HeartbeatTimers_fire_tx ext_model2 s1) = VC "fire" [VC "Heartbeat" [VC "HeartbeatKind::Tx" []; VN h]; timer] /\ snd (gen_HeartbeatTimers_fire_rx ext_model2 (timers0 timer)) = VC "fire" [VStuck; timer].
 
 Print Assumptions C17_not_early.
 Print Assumptions C17_prompt.
@@ -107,4 +112,5 @@ Print Assumptions C17_missed_not_masked.
 Print Assumptions C17_pass_ok.
 Print Assumptions C17_fire_source_is_model.
 Print Assumptions C17_timers_source_is_model.
+Print Assumptions C17_start_fire_source_is_model.
 Print Assumptions C17_example.
